@@ -189,6 +189,9 @@ template <class Db> void partA(const Args& a, Counters& c) {
         auto r = bs[bi]; std::reverse(r.begin(), r.end()); vars.push_back({"reversed", r});
         auto ro = bs[bi]; std::rotate(ro.begin(), ro.begin() + 1, ro.end()); vars.push_back({"rotated", ro});
         for (int k = 0; k + 1 < n; k++) { auto s = bs[bi]; std::swap(s[k], s[k + 1]); vars.push_back({fmt("swap%d", k), s}); }
+        // registries ordered by zone id (ascending / descending): an order a user may well choose, and the one a by-id search would key on
+        auto bi_ = bs[bi]; std::sort(bi_.begin(), bi_.end(), [](const ZI* x, const ZI* y) { return Db::id(x) < Db::id(y); }); vars.push_back({"by-id", bi_});
+        std::reverse(bi_.begin(), bi_.end()); vars.push_back({"by-id-desc", bi_});
       }
       for (auto& v : vars) {
         if ((item++ % a.nshards) != a.shard) continue;
